@@ -26,7 +26,7 @@ EXHAUSTIVE = {"quick": False, "thorough": True}
 METHODS = ["GET", "HEAD", "DELETE", "OPTIONS", "TRACE", "POST", "PUT", "PATCH", "FOO"]
 NOBODY = {"GET", "HEAD", "DELETE", "TRACE", "OPTIONS", "CONNECT"}
 SIZES = [0, 1, 7, 8, 9, 31]
-KINDS = ["none", "bytes", "bytearray", "memoryview", "str", "bytesio", "stringio", "file", "textfile", "notell", "badtell", "list", "tuple", "gen", "array-B", "array-I"]
+KINDS = ["none", "bytes", "bytearray", "memoryview", "str", "bytesio", "stringio", "file", "textfile", "notell", "badtell", "shortread", "list", "tuple", "gen", "array-B", "array-I"]
 HISTORIES = [["ok"], ["reset", "ok"], ["503", "ok"], ["307", "ok"], ["308", "ok"], ["303", "ok"], ["302", "ok"], ["301", "ok"], ["refused", "ok"],
              ["reset", "503", "ok"], ["307", "reset", "ok"], ["503", "308", "ok"], ["303", "503", "ok"], ["refused", "307", "ok"], ["reset", "reset", "ok"]]
 TEXT = "aé€b\r\nZ0123456789abcdefghijklmnopqrstuvwxyz"
@@ -40,10 +40,10 @@ def body_spec(kind, size, off=0):
     raw = (TEXT * 3)
     if kind == "none":
         return None
-    if kind in ("bytes", "bytearray", "memoryview", "bytesio", "file", "notell", "badtell"):
+    if kind in ("bytes", "bytearray", "memoryview", "bytesio", "file", "notell", "badtell", "shortread"):
         data = raw.encode("utf-8")[:size].decode("latin-1")
         d = {"k": kind, "v": data}
-        if kind in ("bytesio", "file", "notell", "badtell"):
+        if kind in ("bytesio", "file", "notell", "badtell", "shortread"):
             d["off"] = min(off, size)
         return d
     if kind in ("str", "stringio", "textfile"):
@@ -82,7 +82,7 @@ def run_case(case) -> list[Failure]:
         raise core.InvalidCase
     if any(h not in ("ok", "reset", "refused", "503", "301", "302", "303", "307", "308") for h in history) or case.get("blocksize") not in (None, 3, 8):
         raise core.InvalidCase
-    if spec is not None and (not isinstance(spec, dict) or spec.get("k") not in ("bytes", "bytearray", "memoryview", "str", "bytesio", "stringio", "file", "textfile", "notell", "badtell", "list", "tuple", "gen", "array")):
+    if spec is not None and (not isinstance(spec, dict) or spec.get("k") not in ("bytes", "bytearray", "memoryview", "str", "bytesio", "stringio", "file", "textfile", "notell", "badtell", "shortread", "list", "tuple", "gen", "array")):
         raise core.InvalidCase
     if spec is not None and spec["k"] in ("list", "tuple", "gen") and any(c.get("t") not in ("s", "b") for c in spec["v"]):
         raise core.InvalidCase
@@ -108,7 +108,7 @@ def run_case(case) -> list[Failure]:
     payload = reqwire.body_bytes(spec)
     fails: list[Failure] = []
     k0 = spec["k"] if spec else "none"
-    bclass = {"gen": "oneshot", "notell": "oneshot", "badtell": "failedtell", "bytesio": "seekable", "stringio": "seekable", "file": "seekable", "textfile": "seekable", "none": "none", "array": "buffer-" + (spec or {}).get("code", "")}.get(k0, "inmemory")
+    bclass = {"gen": "oneshot", "notell": "oneshot", "badtell": "failedtell", "bytesio": "seekable", "shortread": "seekable", "stringio": "seekable", "file": "seekable", "textfile": "seekable", "none": "none", "array": "buffer-" + (spec or {}).get("code", "")}.get(k0, "inmemory")
     sig0 = {"entry": entry, "body": bclass}
     headers = {"X-T": "1"}
     if framing == "cl":
@@ -255,7 +255,7 @@ def enum_cases(tier):
             continue
         for method in ("POST", "PUT") if tier != "quick" else ("POST",):
             for off in (0, 3):
-                if off and kind not in ("bytesio", "stringio", "file", "textfile", "notell", "badtell"):
+                if off and kind not in ("bytesio", "stringio", "file", "textfile", "notell", "badtell", "shortread"):
                     continue
                 yield _mk(entry, method, kind, size, off, False, None, 8 if size != 31 else None, history)
     if tier != "quick":
